@@ -28,6 +28,17 @@ CHECKS = {
             'Per-face growth magnitudes are equal within a sign pattern (unequal magnitudes appear through the physical laws only); '
             'grids are uniform as the PBM constructs them.',
             '2/C07'),
+    'C08': ('model_checking',
+            'explicit-state BFS over operation histories on the real PopulationBalanceModel with canonical-state dedup',
+            'All histories up to depth 4 (quick) / 5 (thorough) over ~20 grid operations (extend by 1/3, re-mesh to half/double/fifth/cut/'
+            'widened range, automatic adjustment with and without dissolution check, update with 7 distribution shapes, backup/revert, '
+            'reset, load) from 3-4 base grids with adaptive binning and recording on/off; every reached state is rebuilt by replay on a '
+            'fresh object, deduplicated by a canonical form containing every field the operations read, and checked for the grid '
+            'invariants; every transition for its postcondition (extend leaves old classes untouched, re-mesh conserves M3 when the '
+            'populated range is covered, adjust <= maxBins, reset/revert exact, recorded rows consistent, ...FromN purity).',
+            'revert only after a backup since the last reset/re-mesh; manual re-meshing keeps >= minBins/2+1 classes; recording in '
+            'adaptive mode only while bins <= maxBins (as the models guarantee).',
+            '2/C08'),
 }
 
 NOT_YET = {}
